@@ -33,6 +33,9 @@ fn state_validate_ghost(_s: &crate::state::State, num_states: usize) -> Result<(
     Ok(())
 }
 
+pub(crate) fn replay_state_validate_hook(s: &crate::state::State, num_states: usize) -> Option<Result<(), Error>> {
+    if crate::verif::mode() == crate::verif::MODE_MACHINE_VALIDATE { Some(state_validate_ghost(s, num_states)) } else { None }
+}
 fn display_stub(_e: &Error, _f: &mut core::fmt::Formatter<'_>) -> core::fmt::Result {
     Ok(())
 }
@@ -46,6 +49,7 @@ fn display_stub(_e: &Error, _f: &mut core::fmt::Formatter<'_>) -> core::fmt::Res
 #[kani::stub(crate::state::State::validate, state_validate_ghost)]
 #[kani::stub(<crate::Error as core::fmt::Display>::fmt, display_stub)]
 fn k_validate_machine() {
+    crate::verif::set_mode(crate::verif::MODE_MACHINE_VALIDATE);
     const NT: Option<Vec<Trans>> = None;
     let mk = || state_from_parts(None, (None, None), [NT; EVENT_NUM]);
     let mut sarr = [mk(), mk(), mk()];
